@@ -14,7 +14,7 @@ Equal sub-expressions are built once and shared (hash-consing), so a pattern
 object that occurs twice in an expression is literally the same blueprint
 used by two embeddings."""
 
-import itertools
+import sys
 
 from mc import core
 from mc.engines import progenum
@@ -24,7 +24,7 @@ MODE = 'nrt'
 MODNAME = 'mc.checks.c13'
 
 CAP = 24            # items compared per run
-BUDGET = 150000     # traced line events per guarded library run
+BUDGET = 100000     # counted events (calls, resumes, jumps, branches) per guarded run
 INVAL = 7           # value passed to stream.next(inval)
 NSHARDS = 64
 
@@ -131,7 +131,11 @@ def standalone(expr, n):
         'F_add10 = lambda x: x + 10\nF_double = lambda x: x * 2\n'
         'F_even = lambda x: x % 2 == 0\nF_gt1 = lambda x: x > 1\n'
         f'p = {to_source(expr)}\n'
-        f'print(list(itertools.islice(iter(p), {n})))\n')
+        f'print(list(itertools.islice(iter(p), {n})))\n'
+        '# blueprint: two streams of p, alternately advanced, each repeat '
+        'the solo sequence\n'
+        's1, s2 = iter(p), iter(p)\n'
+        'print([(next(s1, None), next(s2, None)) for _ in range(3)])\n')
 
 
 # ---------------------------------------------------------------------------
@@ -255,6 +259,46 @@ def snapdiff(a, b, path='p', out=None):
 END = 'END'
 
 
+class _MonBudget:
+    """Step budget on sys.monitoring (Python >= 3.12): counts function
+    starts, generator resumes, jumps and branches - every loop shape produces
+    one of them - and raises StepBudgetExceeded past the limit.  Same contract
+    as progenum.budget (deterministic, no wall clock) at a fraction of the
+    cost of line tracing."""
+    TOOL = 3
+
+    def __init__(self, limit):
+        self.limit = limit
+        self.n = 0
+
+    def _cb(self, *args):
+        self.n += 1
+        if self.n > self.limit:
+            sys.monitoring.set_events(self.TOOL, 0)
+            raise progenum.StepBudgetExceeded(self.limit)
+
+    def __enter__(self):
+        mon = sys.monitoring
+        ev = mon.events
+        if mon.get_tool(self.TOOL) is None:
+            mon.use_tool_id(self.TOOL, 'c13-step-budget')
+        for e in (ev.JUMP, ev.BRANCH, ev.PY_START, ev.PY_RESUME):
+            mon.register_callback(self.TOOL, e, self._cb)
+        mon.set_events(self.TOOL,
+                       ev.JUMP | ev.BRANCH | ev.PY_START | ev.PY_RESUME)
+        return self
+
+    def __exit__(self, *exc):
+        sys.monitoring.set_events(self.TOOL, 0)
+        return False
+
+
+def budget(limit):
+    if hasattr(sys, 'monitoring'):
+        return _MonBudget(limit)
+    return progenum.budget(limit)
+
+
 def norm(v):
     """JSON-able, container-type-free rendering of an observed value."""
     if isinstance(v, (list, tuple)):
@@ -264,13 +308,17 @@ def norm(v):
     return repr(v)
 
 
+MAXSTEPS = [0]      # largest number of events one guarded run needed
+
+
 def guarded(steps):
     """Run the callables of `steps` one after another under one budget; each
     returns a token or raises.  Result: list of tokens, the last of which may
     be ['EXC', type] or ['BUDGET'].  Stops at the first END/EXC/BUDGET."""
     out = []
+    bud = budget(BUDGET)
     try:
-        with progenum.budget(BUDGET):
+        with bud:
             for f in steps:
                 try:
                     tok = f()
@@ -286,6 +334,7 @@ def guarded(steps):
                     break
     except progenum.StepBudgetExceeded:
         out.append(['BUDGET'])
+    MAXSTEPS[0] = max(MAXSTEPS[0], min(bud.n, BUDGET))
     return out
 
 
@@ -753,7 +802,7 @@ EMBED8 = ('Pseq', 'Pser', 'Pn', 'Pswitch', 'Pswitch1', 'Place', 'Pslide',
           'Ptuple')
 
 
-def pairs_space(pool, small):
+def pairs_space(pool, small, full=True):
     """Constructors with two or three pattern slots: list patterns and binary
     operators over all pairs of `pool`, the others over pairs of `small`."""
     items = [1] + pool
@@ -764,10 +813,9 @@ def pairs_space(pool, small):
             for r in (1, 2, I):
                 for o in (0, 1):
                     yield ['Pseq', [a, b], r, o]
-            for r in (3, I):
-                for o in (0, 1):
-                    yield ['Pser', [a, b], r, o]
-            for r in (1, 2):
+            for r, o in ((3, 0), (3, 1), (I, 0)) + (((I, 1),) if full else ()):
+                yield ['Pser', [a, b], r, o]
+            for r in (1, 2) if full else (2,):
                 yield ['Ptuple', [a, b], r]
             if is_node(a) and is_node(b):
                 for op in ('add', 'sub'):
@@ -837,7 +885,11 @@ def _generate(tier):
     d1 = d1_space()
     for e in d1:
         add('depth1', e)
-    for x in d1:
+    # Pslide has 72 depth-1 variants; as a *child* the 18 with length 2 and
+    # start 0 are used in the quick tier, all of them in the thorough tier.
+    slim = [x for x in d1
+            if not (x[0] == 'Pslide' and (x[2] == 3 or x[4] == 1))]
+    for x in slim:
         for e in filters_over(x):
             add('depth2', e)
     for e in pairs_space(R, R2):
@@ -845,10 +897,12 @@ def _generate(tier):
     for e in extras_space():
         add('depth2', e)
     if tier == 'thorough':
-        for e in pairs_space(d1, R):
+        for x in d1:
+            for e in filters_over(x):
+                add('depth2', e)
+        for e in pairs_space(slim, R, full=False):
             add('depth2-wide', e)
-        d1e = [x for x in d1 if x[0] in EMBED8 and
-               not (x[0] == 'Pslide' and (x[2] == 3 or x[4] == 1))]
+        d1e = [x for x in slim if x[0] in EMBED8]
         d2e = []
         for x in d1e + R:
             for e in embedders_over(x):
@@ -890,24 +944,38 @@ def work(job):
 
 def main(ctx):
     ctx.rule = (
-        'E1: every expression of the grammar (depth-1 constructors over '
-        'leaves; every single-child constructor over every depth-1 pattern; '
-        'multi-child constructors over a representative child pool; thorough '
-        'adds the full pair space and depth 3 through the 8 embedding '
-        'constructors). Each is run via stream.next(inval), the iterator '
-        'protocol, list()/all() when finite, and 16 two-stream '
-        'interleavings. Non-trivial = a pattern is nested inside a pattern '
-        '(depth >= 2); all cases are distinct expressions.')
+        'E1: every expression of the grammar is built with the public '
+        'constructors/operators (equal sub-expressions share one object). '
+        'quick: all 177 depth-1 expressions (29 constructors over leaf '
+        'arguments, parameter domains of 2-4 values incl. inf); every '
+        'single-child use (65 variants: filters, operators, pattern-valued '
+        'step/index, 3-item lists, Place) over 123 depth-1 children; '
+        'two/three-child constructors (Pseq, Pser, Ptuple, binop, Pswitch, '
+        'Pswitch1, Pif, narop, Pwrap, Pstutter, Pclump, Place) over pairs '
+        'from an 18-element child pool; pattern-valued Pslide length/step, '
+        'Pflatten(Pclump), nested Pseed. thorough adds single-child uses '
+        'over all 177 children, pairs over 123 children and depth 3 (8 '
+        'embedding constructors applied twice, then every single-child use '
+        'on top). Each expression is run via stream.next(inval), the '
+        'iterator protocol, list()/all() when finite, and two streams of '
+        'one pattern in all 16 interleavings of length 4; first 24 items + '
+        'end position compared with the reference. Non-trivial = a pattern '
+        'is nested inside a pattern (depth >= 2); cases are deduplicated, '
+        'so every case is a distinct expression.')
     ctx.assumptions += [
         'reference semantics mc/oracles/patterns_ref.py written from the '
         'SuperCollider pattern help files and this library\'s comments; '
-        "don't-cares: offsets outside the list, Pflatten on nested lists or "
-        'n<1, operators on list values, random structure, endless '
-        'non-yielding loops, Pconst within tolerance',
-        'random patterns are checked for membership in the documented value '
-        'set and for repeatability under Pseed, not for distribution',
-        f'prefix of {CAP} items per run; library runs guarded by a '
-        f'{BUDGET}-line step budget']
+        "don't-cares: offsets outside the list, Pswitch index outside the "
+        'list, Pflatten on nested lists/tuples or n<1, operators on list '
+        'values, structure depending on random values, endless non-yielding '
+        'loops, Pconst within tolerance of the sum, behaviour after the end '
+        'of a stream, container type (list/tuple) of Ptuple/Pclump values',
+        'random patterns (only under Pseed) are checked for membership in '
+        'the documented value set, Pshuffle blocks for being one repeated '
+        'permutation, and for repeatability; not for distribution',
+        f'prefix of {CAP} items per run; every library run is guarded by a '
+        f'deterministic budget of {BUDGET} events (function starts, '
+        'generator resumes, jumps, branches via sys.monitoring)']
     ctx.extra['cap_items_per_run'] = CAP
     ctx.extra['step_budget_lines'] = BUDGET
     jobs = [{'shard': i, 'of': NSHARDS, 'tier': ctx.tier}
